@@ -4,7 +4,6 @@ import (
 	"encoding/json"
 	"fmt"
 	"math/rand"
-	"os"
 	"strings"
 	"sync"
 
@@ -325,37 +324,14 @@ func NumericExtremes() []string {
 	}
 }
 
-// ReplayFileC08 re-runs one recorded failure of C08.
-func ReplayFileC08(c *core.Ctx) bool {
-	if c.Replay == "" {
-		return false
+// ReplayLitCase re-runs one recorded literal case.
+func ReplayLitCase(c *core.Ctx, raw json.RawMessage) {
+	var lc LitCase
+	if err := json.Unmarshal(raw, &lc); err != nil {
+		c.Broken("bad literal scenario: %v", err)
+		return
 	}
-	b, err := kitRead(c.Replay)
-	if err != nil {
-		c.Broken("cannot read replay file: %v", err)
-		return true
-	}
-	var rf struct {
-		Scenario json.RawMessage `json:"scenario"`
-	}
-	var kind struct {
-		Kind string `json:"kind"`
-	}
-	if err := json.Unmarshal(b, &rf); err != nil || json.Unmarshal(rf.Scenario, &kind) != nil {
-		c.Broken("bad replay file %s", c.Replay)
-		return true
-	}
-	switch kind.Kind {
-	case "LiteralShortcut":
-		var lc LitCase
-		_ = json.Unmarshal(rf.Scenario, &lc)
-		st := newLitStats()
-		runLitCase(c, st, lc, Key(fmt.Sprint(c.Seed)), false)
-		c.Add("traces_validated_against_impl", st.Conform)
-	default:
-		c.Broken("replay file of unknown kind %q", kind.Kind)
-	}
-	return true
+	st := newLitStats()
+	runLitCase(c, st, lc, Key(fmt.Sprint(c.Seed)), false)
+	c.Add("traces_validated_against_impl", st.Conform)
 }
-
-func kitRead(p string) ([]byte, error) { return os.ReadFile(p) }
